@@ -13,6 +13,7 @@
 EXTENDS Subset, Json
 
 CONSTANTS K1, K2,          \* kinds of lookup 1 / lookup 2
+          T1Sel,           \* "all" (the four triples up to symmetry) | "one"
           T2Sel,           \* "all" | "some"  triples of lookup 2
           CompSel,         \* subset of 1..5 (see Comps)
           FeatModes,       \* subset of {"A","B","C","D"}
@@ -25,6 +26,7 @@ CONSTANTS K1, K2,          \* kinds of lookup 1 / lookup 2
 CanonTriples == {<<2, 3, 4>>, <<5, 2, 3>>, <<2, 5, 3>>, <<2, 3, 5>>}
 AllTriples == {t \in (2..5) \X (2..5) \X (2..5) : t[1] # t[2] /\ t[2] # t[3] /\ t[1] # t[3]}
 SomeTriples == {<<2, 3, 4>>, <<3, 4, 5>>, <<4, 5, 2>>, <<5, 2, 3>>, <<3, 2, 5>>, <<4, 3, 2>>}
+Triples1 == IF T1Sel = "all" THEN CanonTriples ELSE {<<2, 3, 4>>}
 Triples2 == IF T2Sel = "all" THEN AllTriples ELSE SomeTriples
 IsCtx(k) == k \in {"chain", "ctx2"}
 
@@ -66,7 +68,7 @@ MkFont(k1, t1, k2, t2, c, fm, gp) ==
 FeatOpt(fo) == CASE fo = "all" -> <<"*">> [] fo = "ss01" -> <<"ss01">> [] OTHER -> <<>>
 
 Init ==
-  \E k1 \in K1 : \E t1 \in CanonTriples : \E k2 \in K2 : \E t2 \in Triples2 :
+  \E k1 \in K1 : \E t1 \in Triples1 : \E k2 \in K2 : \E t2 \in Triples2 :
     /\ ~(IsCtx(k1) /\ IsCtx(k2))
     /\ \E c \in CompSel : \E fm \in FeatModes : \E gp \in GposSel :
        \E us \in SUBSET {1, 2, 3} : \E rg \in ReqGlyphSel :
